@@ -98,6 +98,9 @@ def run_property(prop, tier, seed):
         for sc in spec.get("spec_checks", []):
             if tier == "quick" and sc.get("thorough_only"):
                 continue
+            if sc.get("kind") == "tlaps":
+                cov["spec_checks"].append(P.prove(sc["module"], sc["deps"], wd, timeout=sc.get("timeout", 1500)))
+                continue
             r = P.model_check(sc["module"], sc["cfg"], wd, env=sc.get("env"), name="mc_" + sc["cfg"].replace(".cfg", ""),
                               timeout=sc.get("timeout", 1500), workers=sc.get("workers", P.NPROC))
             cov["spec_checks"].append(r)
